@@ -273,6 +273,9 @@ def apply_relabel(v, spec):
         return v + d
     if t == 'reverse':
         return used.max() - v
+    if t == 'stride':
+        m = int(spec['m'])
+        return v * m if int(used.max()) * m < MAX_CODE else v
     if t == 'lattice':
         # codes base + i*step (powers of two apart), the largest used code mapped to 2^20 - 1: the arithmetic corner where
         # packed joint keys such as x * (max(y) + 1) + y wrap
